@@ -121,6 +121,8 @@ func c04Base() []vec {
 				sc[:1] + fmt.Sprintf("&#%d;", sc[1]) + sc[2:], sc[:1] + fmt.Sprintf("&#0000%d;", sc[1]) + sc[2:],
 				// the ignorable bytes (LF, NUL) written as character references inside the scheme
 				sc[:2] + "&#10;" + sc[2:], sc[:2] + "&#x0A;" + sc[2:], sc[:3] + "&#0;" + sc[3:], sc[:2] + "&#10" + sc[2:],
+				// every byte of the scheme as a hexadecimal / decimal reference (each hex digit of each scheme letter is needed)
+				allRefs(sc, "&#x%x;"), allRefs(sc, "&#X%X;"), allRefs(sc, "&#%d;"),
 			}
 			for _, o := range obf {
 				addAttr(a, o+"alert(1)", "url-attr")
@@ -136,7 +138,7 @@ func c04Base() []vec {
 	for _, tail := range []string{"", " html>", ">", " x", "\n"} {
 		mk("<!doctype"+tail, 2, 7)
 	}
-	for _, tail := range []string{" x>", " x", "%x;>", "\tx \"y\">"} {
+	for _, tail := range []string{" x>", " x", "%x;>", "\tx \"y\">", "?>", " >", "=>"} {
 		mk("<!entity"+tail, 2, 6)
 		mk("<?import"+tail, 2, 6)
 		mk("<?xml"+tail, 2, 3)
@@ -237,7 +239,7 @@ func init() {
 		QuickS:    60,
 		ThoroughS: 600,
 		Rule: "complete product of the calibrated vector grammar: (every shipped + pinned-baseline black tag x 7 endings; every shipped + baseline event/black/style attribute x 4 quotings x {bare, bare+'>', element form with 9 separators, spaced '=', after another attribute}; " +
-			"every URL attribute x 4 schemes x 15 scheme obfuscations; indirect attribute names; doctype/entity/import/xml/IE-conditional/back-tick markup) x (14 breakout prefixes for element forms | 13 attribute-context prefixes for bare attributes) " +
+			"every URL attribute x 4 schemes x 18 scheme obfuscations; indirect attribute names; doctype/entity/import/xml/IE-conditional/back-tick markup) x (14 breakout prefixes for element forms | 13 attribute-context prefixes for bare attributes) " +
 			"x {lower, UPPER, alternating, every single-letter flip of the name, NUL at every interior name position, NUL runs of 2/8/40 in the middle of the name, one NUL in every gap}; every member must be reported by IsXSS; all members are distinct and non-trivial",
 		Assumptions: []string{"the grammar is fixed in c04.go (calibrated once on the repaired pinned tree); list entries are read from the current tables and from the pinned baseline"},
 		Setup: func(w *fw.W) error {
@@ -297,6 +299,14 @@ func init() {
 }
 
 // C04Calibrate prints every non-detected member grouped by family / prefix / base vector (development aid).
+func allRefs(sc, f string) string {
+	var sb strings.Builder
+	for i := 0; i < len(sc); i++ {
+		fmt.Fprintf(&sb, f, sc[i])
+	}
+	return sb.String()
+}
+
 func C04Calibrate() {
 	miss := map[string]int{}
 	ex := map[string]string{}
